@@ -402,7 +402,9 @@ fn cmd_w1(args: &Args) -> i32 {
         .set("determinism_pairs_checked", J::u(out.determinism_pairs))
         .set("determinism_mismatches", J::u(out.determinism_mismatches))
         .set("workers", J::u(cfg.workers as u64))
-        .set("layer", J::s("W1/L1 logical tasks, one OS thread per run, ops atomic"))
+        .set("layer", J::s("W1/L1 logical tasks; ops atomic; every group of runs_per_fork consecutive runs executes in its own fork()ed single-threaded process (nothing the code under test leaves in statics or thread-locals reaches another group); batch sharded over worker processes"))
+        .set("runs_per_fork", J::u(cfg.runs_per_fork))
+        .set("fresh_process_references", J::u(out.stats.probes.get("fresh_process_reference_checked").copied().unwrap_or(0)))
         .set("real_components", J::s("all of jbonsai (built from /repo working tree with --cfg jbonsai_verif), jlabel, nom, serde, std::fs on tmpfs"))
         .set("simulated_components", J::s("caller tasks and their scheduler, op histories, voice files written to tmpfs, hash seed"))
         .set("stubbed_components", J::s("none"))
